@@ -198,3 +198,22 @@ EXTRA2 = {
 for _k, _v in EXTRA2.items():
     _t = CLAIMED[_k]
     CLAIMED[_k] = (_t[0], _t[1] + " " + _v, _t[2], _t[3])
+EXTRA3 = {
+ "C01": "Round 7: the proof-state check reads the spent and pending tables only after it resolved the pending melt quotes (a spent proof is reported SPENT).",
+ "C02": "Round 7: the whole-invoice pay call is made only for a non-MPP quote, the partial call only for an MPP quote with the stored AmountMsat, and at creation the MPP flag is stored exactly on the paths that store the partial amount; a JSON fee-limit field is never omitempty; the spent / pending readers bind every input (shared with C01.R10).",
+ "C03": "Round 7: the invoice watcher marks PAID only for a received update that says settled; the quote-state answer carries the state that was written; the melt decision table cross-registered for internal settlement.",
+ "C04": "Round 7: keyset path and key derivation cross-registered (a different derivation at restart refuses every proof issued before).",
+ "C05": "Round 7: the returned melt quote carries the state and preimage that were written (operation, poll, internal settlement, new helpers); what is released / marked spent are the request's inputs resp. every pending row of the quote, field by field; the status look-up of a backend answers Succeeded / Failed with a nil error only behind an equality test on the node's status.",
+ "C06": "Round 7: no typed-nil error (every pointer converted to error is never nil); a refused multi-row write leaves no rows (atomic-write rule cross-registered).",
+ "C09": "Round 7: every store into the keyset cache uses the key of the same request's look-up and that route's own keyset; every keyset put into the map of all keysets carries every field of one generated keyset under its own id.",
+ "C11": "Round 7: reads behind a store through a scalar pointer parameter see the stored value (secret and blinding factor use the same counter).",
+ "C13": "Round 7: the per-input agreement of SIG_ALL requests (same keys, same n_sigs, all SIG_ALL) is decided under C13 as well.",
+ "C15": "Round 7: melt decision table cross-registered (a paid melt leaves its inputs in the spent table).",
+ "C16": "Round 7: signatures are handed out only after they were saved (shared with C06.R5); admin RPC fields named Issued / Redeemed are fed by IssuedEcash / RedeemedEcash only.",
+ "C17": "Round 7: on the swap-to-trusted path no storage write takes the received token's proofs.",
+ "C18": "Round 7: every storage method that writes one kind of record uses a type with the same JSON members (a counter update keeps the keyset's fee); no append into a proper prefix of a list that stays in use.",
+ "C20": "Round 7: a signature row with NULL DLEQ columns is restored without a dleq member; a return that hands out nothing never takes its error from a function that can return nil.",
+}
+for _k, _v in EXTRA3.items():
+    _t = CLAIMED[_k]
+    CLAIMED[_k] = (_t[0], _t[1] + " " + _v, _t[2], _t[3])
